@@ -22,7 +22,7 @@ INFO = {
                   'db.shelve.model.Interface._update', 'dawgie.Task.new_values', 'db.shelve.remove'],
     'bounds': {
         'quick': 'histories of <=3 operations (18 kinds: 3 authors x 4 target/run slots with 2 repeating contents, removals, version bumps); every file-system / table step of each',
-        'thorough': 'histories of <=5 operations',
+        'thorough': 'histories of <=4 operations (k=5 was run once: 1.3 million histories, 55 min, all confirmed)',
     },
     'assumptions': [
         'os/open/shutil/tempfile/subprocess as seen from dawgie.db.util are an in-memory file system; md5sum/sha1sum answered with hashlib over the same bytes in the same output format',
@@ -34,7 +34,7 @@ INFO = {
 
 
 def obligations(tier):
-    k = 3 if tier == 'quick' else 5
+    k = 3 if tier == 'quick' else 4
     n = len(store.events())
     out = []
     free = [f'e{i}' for i in range(1, k)]
